@@ -230,9 +230,11 @@ PROPS = {
                       "dispose:keyless", "dispose:not-enabled", "write:implicit-registration", "write:not-enabled",
                       "lookup:registered", "lookup:unknown", "lookup:not-enabled", "enable"],
                      "DataWriterAsync on a keyed and a keyless type, created enabled or not enabled, driven inside the deterministic simulation"),
-    "C37": graphprop("Qos", "MC_Qos", ["MC_Qos_%s.cfg" % k for k in ("writer", "reader", "topic", "publisher", "subscriber", "participant", "writer_walk", "reader_walk")],
+    "C37": graphprop("Qos", "MC_Qos", ["MC_Qos_%s.cfg" % k for k in ("writer", "reader", "topic", "publisher", "subscriber", "participant", "writer_walk", "reader_walk",
+                                                            "writer_dflt", "reader_dflt", "topic_dflt", "publisher_dflt", "subscriber_dflt")],
                      ["create:accepted", "create:inconsistent", "set:inconsistent", "set:immutable", "set:accepted-mutable",
-                      "set:accepted-immutable-before-enable", "set:inconsistent-and-immutable", "enable", "setdefault:immutable", "setdefault:accepted-mutable"],
+                      "set:accepted-immutable-before-enable", "set:inconsistent-and-immutable", "enable", "setdefault:immutable", "setdefault:accepted-mutable",
+                      "setfactorydefault:accepted", "setfactorydefault:inconsistent", "create:changed-factory-default"],
                      "entity under test on one participant, announced QoS read from the built-in readers of a second participant, both inside the deterministic simulation"),
     "C26": simprop(scenarios.c26, ["C26"], {"scenarios": 30, "presented": 30, "withheld": 30, "finals": 30, "mixedfinal": 15}, spec="Trace_Filter", mc=None,
                    norm=tracenorm.normalise_filter),
@@ -251,7 +253,7 @@ PROPS = {
                            norm=tracenorm.normalise_worker)),
     "C18": rc("C18", {"quick": C("C18", "C18b", "C18c", "C18d", "C18_walk"), "thorough": C("C18", "C18b", "C18c", "C18d", "C18_walk")},
               ["history:keep-last-replaces-oldest"]),
-    "C19": rc("C19", {"quick": C("C19", "C19b", "C19c", "C19_walk"), "thorough": C("C19", "C19b", "C19c", "C19_walk")}, ["limits:rejected"]),
+    "C19": rc("C19", {"quick": C("C19", "C19b", "C19c", "C19d", "C19e", "C19_walk"), "thorough": C("C19", "C19b", "C19c", "C19d", "C19e", "C19_walk")}, ["limits:rejected"]),
     "C20": rc("C20", {"quick": C("C20", "C20b"), "thorough": C("C20", "C20b")}, ["access", "access:specific-instance", "access:unknown-instance"]),
     "C21": rc("C21", {"quick": C("C21", "C21b", "C21c", "C21_walk"), "thorough": C("C21", "C21b", "C21c", "C21_walk")}, ["order:inserted-before-later-timestamp"]),
     "C22": rc("C22", {"quick": C("C22", "C22b", "C22c", "C22_walk"), "thorough": C("C22", "C22b", "C22c", "C22_walk")},
@@ -261,7 +263,7 @@ PROPS = {
     "C24": rc("C24", {"quick": C("C24", "C24b", "C24_walk"), "thorough": C("C24", "C24b", "C24_walk")},
               ["ownership:weaker-writer-ignored", "ownership:stronger-writer-takes-over",
                "ownership:owner-no-longer-matched"]),
-    "C25": rc("C25", {"quick": C("C25", "C25b", "C25_walk"), "thorough": C("C25", "C25b", "C25_walk")},
+    "C25": rc("C25", {"quick": C("C25", "C25b", "C25c", "C25_walk"), "thorough": C("C25", "C25b", "C25c", "C25_walk")},
               ["timefilter:closer-than-minimum-separation"]),
 }
 
